@@ -75,6 +75,12 @@ fn check(ck: &mut Checker, backend: u8, class: u8, data: &[u8], place: Place) {
             return;
         }
     };
+    if ck.stats.samples.len() < 4 && ck.stats.nodes % 100_003 == 1 {
+        ck.stats.samples.push(format!(
+            "{{\"scanner\":\"{}\",\"class\":\"{}\",\"placement\":\"{:?}\",\"input\":\"{}\",\"stopped_at\":{},\"first_out_of_class\":{}}}",
+            BACKEND_NAMES[backend as usize], CLASS_NAMES[class as usize], place, crate::json::esc(&printable(data)), got, exp
+        ));
+    }
     let i = if got == data.len() { 0 } else { 1 };
     ck.stats.outcomes[i][(got % 5).min(4)] += 1;
     if got != exp {
